@@ -35,3 +35,27 @@ def field_probes(mode: str, version: int, all_versions: bool = False):
         out.append(("field:global:%s:asU" % name, prog(mode, ("Seq", ("Un", "Pop", ("Bin", "Add", leaf, ("Int", 1))), ("Return", ("Int", 1)))), {}))
         out.append(("field:global:%s:asB" % name, prog(mode, ("Seq", ("Un", "Pop", ("Un", "Len", leaf)), ("Return", ("Int", 1)))), {}))
     return out
+
+
+def maybe_probes(mode: str, version: int, all_versions: bool = False):
+    """the same two probes for the value of every asset / application / account parameter lookup"""
+    from .build import _MAYBE_NAMES
+    out = []
+    if mode != "A":
+        return out
+    groups = {"asset_holding_get": LS.ASSET_HOLDING_FIELDS, "asset_params_get": LS.ASSET_PARAMS_FIELDS,
+              "app_params_get": LS.APP_PARAMS_FIELDS, "acct_params_get": LS.ACCT_PARAMS_FIELDS}
+    for op, fields in groups.items():
+        nargs = _MAYBE_NAMES[op][1]
+        for name, (mv, ty) in sorted(fields.items()):
+            if name not in _MAYBE_NAMES[op][2]:
+                continue
+            if max(mv, LS.OPS[op].minv) > version and not all_versions:
+                continue
+            args = (("Int", 0), ("Txn", "Fee")) if nargs == 2 else (("Txn", "Fee"),)
+            if op == "acct_params_get":
+                args = (("Txn", "Sender"),)
+            kind = ("maybe", op, name, ty)
+            out.append(("field:%s:%s:asU" % (op, name), prog(mode, ("MaybeSeq", kind, args, ("Seq", ("Un", "Pop", ("Bin", "Add", ("MVal",), ("Int", 1))), ("Return", ("MHas",))))), {}))
+            out.append(("field:%s:%s:asB" % (op, name), prog(mode, ("MaybeSeq", kind, args, ("Seq", ("Un", "Pop", ("Un", "Len", ("MVal",))), ("Return", ("MHas",))))), {}))
+    return out
